@@ -52,6 +52,7 @@ def add_pragmas(src, rng):
 
 def _work(job):
     n, src, path, specs = job
+    reload_leg = n % 3 == 0      # every third program (incl. corpus entries) is also "reloaded"
     I.setup()
     with open(path, "w") as f:
         f.write(src)
@@ -63,16 +64,46 @@ def _work(job):
     except Exception as e:  # noqa: BLE001
         res["fails"].append(["instrument:" + type(e).__name__, str(e)[:200], None])
         return res
-    # --- K1b: blocks ---------------------------------------------------------------------------
-    ex = I.extract_blocks(sp, plain, code)
     from pynguin.instrumentation.version import common as c
 
+    dead = live = 0
+    ex0 = k_leg(sp, plain, code, path, res, c, "")
+    if ex0 is None:
+        return res
+    instrumented = sorted(d["tree_index"] for d in ex0.values())
+    # --- reload: reset + re-instrument the changed file on the SAME SubjectProperties -------------------
+    if reload_leg:
+        lines = src.split("\n")
+        at = next(i for i, ln in enumerate(lines) if ln.startswith("def f(")) + 1
+        before = "\n".join(lines[:at] + ["    # placeholder, becomes code when the module is reloaded"] + lines[at:])
+        after = "\n".join(lines[:at] + ["    reloaded = 0"] + lines[at:])
+        try:
+            sp2, code2 = I.reinstrument_after_reset(before, after, path, ("LINE",))
+        except Exception as e:  # noqa: BLE001
+            res["fails"].append(["reload:instrument:" + type(e).__name__, str(e)[:200], None])
+        else:
+            ids = sorted(sp2.existing_lines)
+            metas = [(m.file_name, m.line_number) for m in sp2.existing_lines.values()]
+            if ids != list(range(len(ids))) or len(set(metas)) != len(metas):
+                res["fails"].append(["reload:registry-not-dense", f"after reset + re-instrumentation line ids {ids[:8]}... "
+                                     f"for {len(set(metas))} distinct lines", None])
+            k_leg(sp2, compile(after, path, "exec"), code2, path, res, c, "reload:")
+        with open(path, "w") as f:
+            f.write(src)
+        I.reset_records()
+    res["stats"].update({"dead": res["stats"].get("dead", 0), "live": res["stats"].get("live", 0)})
+    return s_leg(sp, plain, code, path, specs, res, set(instrumented))
+
+
+def k_leg(sp, plain, code, path, res, c, tag):
+    """Translation-validation cases for every live block + direct registry check of every probe."""
+    ex = I.extract_blocks(sp, plain, code)
     dead = live = 0
     for coid, d in ex.items():
         exl = I.excluded_lines(path, d["meta"].code_object)
         if exl is None:
             res["fails"].append(["harness:no-ast", "module AST not available", None])
-            return res
+            return None
         for b in d["blocks"]:
             if not b["live"]:
                 dead += 1
@@ -97,18 +128,29 @@ def _work(job):
                     if rec["method"] != "track_line_visit" or not isinstance(rec["args"][0], c.InstrumentationConstantLoad):
                         ok = False
                         break
-                    ln = sp.existing_lines[rec["args"][0].value].line_number
+                    meta_ln = sp.existing_lines.get(rec["args"][0].value)
+                    ln = meta_ln.line_number if meta_ln is not None else -1
+                    nxt = els[k + m] if k + m < len(els) else None
+                    if nxt is None or nxt[0] != "O" or nxt[2] != ln or (meta_ln is not None and meta_ln.file_name != path):
+                        res["fails"].append([f"{tag}registry:probe-line-mismatch",
+                                             f"code object {d['name']} block {b['index']}: the probe in front of the instruction of line "
+                                             f"{nxt[2] if nxt else None} reports line id {rec['args'][0].value}, registered as line {ln}", None])
                     obs.append(f"C02.Probe {copt(None if ln is None else cZ(ln))}")
                     k += m
                 else:
                     obs.append(f"C02.IP {cnat(PSEUDO[e[0]])}")
                     k += 1
             if not ok:
-                res["fails"].append(["structure:probe-not-contiguous", f"code object {d['name']} block {b['index']}", None])
+                res["fails"].append([f"{tag}structure:probe-not-contiguous", f"code object {d['name']} block {b['index']}", None])
                 continue
             res["cases"].append([cpair(clist(cZ(z) for z in exl), clist(orig), clist(obs)),
-                                 f"{d['name']}:{b['index']}", len(exl), any(e[0] != "O" for e in b["orig"])])
-    res["stats"] = {"dead": dead, "live": live}
+                                 f"{tag}{d['name']}:{b['index']}", len(exl), any(e[0] != "O" for e in b["orig"])])
+    res["stats"]["dead"] = res["stats"].get("dead", 0) + dead
+    res["stats"]["live"] = res["stats"].get("live", 0) + live
+    return ex
+
+
+def s_leg(sp, plain, code, path, specs, res, instrumented):
     # --- S: sys.monitoring ---------------------------------------------------------------------
     registered = {}
     for lid, m in sp.existing_lines.items():
@@ -116,6 +158,22 @@ def _work(job):
         if m.file_name != path or not isinstance(m.line_number, int):
             res["fails"].append(["registry:foreign-line", f"line id {lid} registered as {m.file_name}:{m.line_number}", None])
     reg_lines = {ln for (_f, ln) in registered.values() if isinstance(ln, int)}
+    # lines the instrumentation deliberately leaves out: excluded by the cover configuration, or carried
+    # only by RESUME / END_FOR
+    import dis as _dis
+
+    left_out = set()
+    for idx, co in enumerate(I.code_tree(plain)):
+        if idx not in instrumented:
+            # a scope the transformer skips as a whole (excluded by the cover configuration, C08)
+            left_out |= {ln for (_s, _e, ln) in co.co_lines() if ln is not None}
+            continue
+        left_out |= set(I.excluded_lines(path, co) or [])
+        by_line = {}
+        for ins in _dis.get_instructions(co):
+            if ins.positions is not None and ins.positions.lineno is not None:
+                by_line.setdefault(ins.positions.lineno, set()).add(ins.opname)
+        left_out |= {ln for ln, ops in by_line.items() if ops <= {"RESUME", "END_FOR"}}
     seq = I.sequence_of(specs)
     truths = I.monitored_sequence(plain, path, seq, ("LINE",))
     runs = I.traced_sequence(sp, code, path, seq)
@@ -126,6 +184,10 @@ def _work(job):
             continue
         reported = set(sp.lineids_to_linenos(trace.covered_line_ids))
         executed = set(truth["lines"]) & reg_lines
+        unregistered = set(truth["lines"]) - reg_lines - left_out
+        if unregistered:
+            res["fails"].append(["lines:executed-not-registered", f"execution {k}: the interpreter executed lines {sorted(unregistered)} of the "
+                                 f"module that are neither registered as coverable nor excluded (not instrumented at all)", kk])
         if reported != executed:
             extra, missing = sorted(reported - executed, key=str), sorted(executed - reported)
             kind = "reported-not-executed" if extra else "executed-not-reported"
